@@ -42,6 +42,18 @@ def pat_positions(p, prefix=""):
     return out
 
 
+def _inl_value(e):
+    """A local initialised by an inlined helper call (vlib/inline.py) stands for the helper's result: follow the value the inlined body
+    ends with, not everything the helper does on the way (as if the helper were still a call)."""
+    n = 0
+    while isinstance(e, dict) and e.get("k") == "block" and (e.get("inl") or n > 0) and e.get("e") is not None and n < 6:
+        e = e["e"]
+        n += 1
+        if not (isinstance(e, dict) and e.get("k") == "block"):
+            break
+    return e
+
+
 class FnCtx:
     """Per-fn binding environment: local id -> where its value comes from."""
 
@@ -129,7 +141,7 @@ class FnCtx:
                     elif b[0] == "expr":
                         if lid not in seen and depth < 12:
                             seen.add(lid)
-                            out |= self.mentions(b[1], seen, depth + 1)
+                            out |= self.mentions(_inl_value(b[1]), seen, depth + 1)
                     else:
                         out.add(("local", x.get("name")))
                 elif x.get("def"):
